@@ -74,12 +74,12 @@ def main():
                           "logging, extracted/inlined locals and helpers are normalised away (DESIGN §10). Verdicts are three-valued "
                           "(DESIGN §11): rules that compare the shape of statements abstain (exit 2, undecided) on functions whose "
                           "statement structure no longer matches the reference tree, and obligations that meet a form the engines "
-                          "cannot evaluate are undecided. Measured on 69 behaviour-preserving refactors written by independent "
-                          "sub-agents (DESIGN §6, §13): none draws a false VIOLATION any more, 24 leave at least one check undecided "
+                          "cannot evaluate are undecided. Measured on 81 behaviour-preserving refactors written by independent "
+                          "sub-agents (DESIGN §6, §13): none draws a false VIOLATION any more, 25 leave at least one check undecided "
                           "(exit 2); every new batch first found forms that raised alarms and had to be answered by a canonical form "
                           "or an evaluator — the main weakness of this rule base.",
             "technique": "static analysis: " + tech + "; generic lints over the anchored functions (loop-carried "
-                         "state, untrimmed level tables, task-argument mutation, library pitfalls, unbound names; DESIGN §12)",
+                         "state, untrimmed level tables, task-argument mutation, library pitfalls, unbound names, negative-index wrapping; DESIGN §12)",
         })
     na = [{"property_id": p, "reason": PENDING.get(p, "check not built yet in this session (static rules designed in DESIGN §4; claimed as soon as the check exists)")}
           for p in ALL if p not in {c["property_id"] for c in checks}]
